@@ -167,6 +167,7 @@ def execute(trace: dict) -> Outcome:
         nontrivial=(run.probes.get("torch_optim_compare", 0) + run.probes.get("norm_transfer_checked", 0)) > 0,
         abstract=[(trace["target"], trace["norm_mode"], a) for a in common.abstract_states(run)],
         steps=run.steps_done,
+        digest=run.final_digest,
     )
 
 
